@@ -145,6 +145,10 @@ func (node *Node) processUnconfirmedTx(ctx context.Context, tx handlers.TxData) 
 	}
 
 	txState.State.Safe = tx.Safe || newlySafe
+	if txState.State.UnSafe || txState.State.Cancelled {
+		// Reported unsafe before its block was orphaned, so it is never reported safe again.
+		txState.State.Safe = false
+	}
 	if txState.State.MerkleProof == nil {
 		txState.State.UnconfirmedDepth = 1
 	}
